@@ -2,6 +2,7 @@
 pub mod case;
 pub mod engine;
 pub mod exhaust;
+pub mod fuzzdec;
 pub mod gen;
 pub mod model;
 pub mod props;
